@@ -339,4 +339,15 @@ U15 = Universe(
     multi={"rename m.py->m.pyi": {"tmp/m.py": 1, "tmp/m.pyi": 1}, "rename m.pyi->m.py": {"tmp/m.py": 0, "tmp/m.pyi": 0}},
 )
 
-ALL = {u.name.split("-")[0]: u for u in (U10, U11, U12, U13, U14, U15, U1, U2, U3, U4, U4b, U5, U6, U7, U8, U9)}
+# U16 namespace package appearing: `from p import m` while p does not exist; later the DIRECTORY p (no __init__.py)
+# appears with m.py in it (the importer itself is never edited).
+U16 = Universe(
+    name="U16-nspkg",
+    files={
+        "tmp/p/m.py": [None, "x: int = 0\n", "x: str = ''\n"],
+        "tmp/a.py": ["from p import m\nreveal_type(m.x)\n", "import p.m\nreveal_type(p.m.x)\n"],
+    },
+    sources=[_m("a")],
+)
+
+ALL = {u.name.split("-")[0]: u for u in (U10, U11, U12, U13, U14, U15, U16, U1, U2, U3, U4, U4b, U5, U6, U7, U8, U9)}
